@@ -102,9 +102,30 @@ def gen_scenario(rng, parallel=False, small=False):
         sc['cpu'] = rng.choice([5, 5, 8, 3])
     if rng.random() < 0.4:
         sc['conf_subdir'] = rng.choice(['cfg', 'conf/nested'])
+    add_env_levels(rng, sc)
     if not sc['flags'] and rng.random() < 0.3:
         add_prior(rng, sc)
     return sc
+
+
+def add_env_levels(rng, sc):
+    """`env` on the other five levels (executor and suite have theirs already): machine (-m),
+    runs, experiment, execution details, benchmark; some values start with ~"""
+    for s_ in sc['suites']:
+        if rng.random() < 0.35:
+            s_['bench_env'] = {b: {'B': '%s-%s' % (s_['name'], b), 'P': rng.choice(['~/lib', '/lib'])}
+                               for b in s_['benchmarks'] if rng.random() < 0.75}
+    if rng.random() < 0.15:
+        sc['machine_env'] = {'L': 'machine', 'P': '~/m'}
+    if rng.random() < 0.2:
+        sc['runs_env'] = rng.choice([{'L': 'runs'}, {}, {'L': 'runs', 'H': '~'}])
+    if rng.random() < 0.2:
+        sc['exp_env'] = {'L': 'exp', 'H': '~/e'}
+    if rng.random() < 0.2:
+        sc['exec_detail_env'] = {e['name']: {'L': 'det-' + e['name']} for e in sc['executors'] if rng.random() < 0.7}
+    for x in sc['executors'] + sc['suites']:
+        if x['env'] and rng.random() < 0.3:
+            x['env'] = dict(x['env'], T='~/t')
 
 
 def add_prior(rng, sc):
@@ -169,19 +190,31 @@ def expected_builds(sc, cwd, e, s):
     return out
 
 
-def run_env(e, s):
-    if s['env'] is not None:
-        return s['env']
-    if e['env'] is not None:
-        return e['env']
-    return {}
+def env_levels(sc, e, s, b):
+    """`env` as configured on the seven levels, outermost first: machine, runs, experiment,
+    execution details, executor, suite, benchmark (None = not defined on that level)"""
+    return [sc.get('machine_env'), sc.get('runs_env'), sc.get('exp_env'),
+            (sc.get('exec_detail_env') or {}).get(e['name']), e['env'], s['env'],
+            (s.get('bench_env') or {}).get(b)]
+
+
+def run_env(sc, e, s, b):
+    """independent restatement: the innermost level that defines env replaces the others;
+    processes get the values with a leading ~ expanded"""
+    env = {}
+    for lvl in env_levels(sc, e, s, b):
+        if lvl is not None:
+            env = lvl
+    return {k: (os.path.expanduser(v) if v.startswith('~') else v) for k, v in env.items()}
 
 
 def make_config(sc):
     suites = {}
     for s in sc['suites']:
+        benv = s.get('bench_env') or {}
         d = {'gauge_adapter': 'PlainSecondsLog', 'command': s['name'] + ' %(benchmark)s',
-             'benchmarks': list(s['benchmarks']), 'invocations': s['inv'],
+             'benchmarks': [({bn: {'env': dict(benv[bn])}} if bn in benv else bn) for bn in s['benchmarks']],
+             'invocations': s['inv'],
              'execute_exclusively': bool(s['excl'])}
         if s['location'] is not None:
             d['location'] = s['location']
@@ -202,8 +235,18 @@ def make_config(sc):
         executors[e['name']] = d
     experiments = {}
     for i, pairs in enumerate(experiments_of(sc)):
-        experiments['X' if i == 0 else 'X%d' % (i + 1)] = {'executions': [{en: {'suites': list(ss)}} for en, ss in pairs]}
-    return {'benchmark_suites': suites, 'executors': executors, 'experiments': experiments}
+        dets = sc.get('exec_detail_env') or {}
+        x = {'executions': [{en: dict({'suites': list(ss)}, **({'env': dict(dets[en])} if en in dets else {}))}
+                            for en, ss in pairs]}
+        if sc.get('exp_env') is not None:
+            x['env'] = dict(sc['exp_env'])
+        experiments['X' if i == 0 else 'X%d' % (i + 1)] = x
+    cfg = {'benchmark_suites': suites, 'executors': executors, 'experiments': experiments}
+    if sc.get('runs_env') is not None:
+        cfg['runs'] = {'env': dict(sc['runs_env'])}
+    if sc.get('machine_env') is not None:
+        cfg['machines'] = {'m1': {'env': dict(sc['machine_env'])}}
+    return cfg
 
 
 # ------------------------------------------------------------------ implementation side
@@ -240,7 +283,8 @@ def run_impl(ck, sc, idx):
             k = bench_key(rec['args'])
             counts[k] = counts.get(k, 0) + 1
             return 1 if k in cut and counts[k] > cut[k] else 0
-        b1 = drive_builds.run_build_session(wd, conf, list(prior.get('filter', [])), lambda s, c: 'ok',
+        b1 = drive_builds.run_build_session(wd, conf, (['-m', 'm1'] if sc.get('machine_env') is not None else [])
+                                            + list(prior.get('filter', [])), lambda s, c: 'ok',
                                             cpu_count=1, bench_rc=bench_rc)
         ck.impl_traces += 1
         if b1.res.crash:
@@ -261,6 +305,8 @@ def run_impl(ck, sc, idx):
         def choose(enabled):
             return prng.choice(enabled)
     argv = list(sc['flags'])
+    if sc.get('machine_env') is not None:
+        argv += ['-m', 'm1']
     if sc['sched'] != 'batch':
         argv += ['-s', sc['sched']]
     bs = drive_builds.run_build_session(wd, conf, argv, build_result, cpu_count=sc['cpu'],
@@ -302,7 +348,11 @@ def model_request(sc, wd, order, repaired=True, picks=None, done0=None):
         'suites': [{'name': s['name'], 'location': s['location'], 'build': s['build'],
                     'env': None if s['env'] is None else env_list(s['env'])} for s in sc['suites']],
         'runs': [{'exec': k[0], 'suite': k[1], 'inv': 1 if setup_only else find(sc['suites'], k[1])['inv'],
-                  'excl': bool(find(sc['suites'], k[1])['excl']), 'done0': (done0 or {}).get(k, 0)} for k in order],
+                  'excl': bool(find(sc['suites'], k[1])['excl']), 'done0': (done0 or {}).get(k, 0),
+                  'outer_env': [None if l is None else env_list(l)
+                                for l in env_levels(sc, find(sc['executors'], k[0]), find(sc['suites'], k[1]), k[2])[:4]],
+                  'bench_env': (lambda l: None if l is None else env_list(l))(
+                      (find(sc['suites'], k[1]).get('bench_env') or {}).get(k[2]))} for k in order],
         'results': [{'script': r['script'], 'dir': resolve(wd, r['dir']), 'res': r['res']} for r in sc['results']],
         'do_builds': '-B' not in sc['flags'], 'repaired': repaired, 'locked': repaired,
         'sched': sc['sched'], 'choices': sc['choices'], 'cpu': sc['cpu'], 'picks': picks or []}
@@ -332,7 +382,7 @@ def oracle(ck, sc, wd, bs, order, evs, inp):
     for (e, s, b) in all_pairs(sc):
         k = (e['name'], s['name'], b)
         need[k] = expected_builds(sc, wd, e, s)
-        envs[k] = env_list(run_env(e, s))
+        envs[k] = env_list(run_env(sc, e, s, b))
     results = {(r['script'], resolve(wd, r['dir'])): r['res'] for r in sc['results']}
     failed_any = False
     # once
@@ -362,6 +412,15 @@ def oracle(ck, sc, wd, bs, order, evs, inp):
                 ck.oracle_fail('in_place_env', inp, {'build_start': ev, 'envs_of_dependents': [envs[k] for k in users]},
                                signature={'clause': 'in_place_env'})
                 failed_any = True
+    # ... more exactly: the environment of the run whose execute_run triggered the build
+    for i, ev in enumerate(evs):
+        if ev[0] != 'B':
+            continue
+        trig = bs.events[i][2].get('run')
+        if trig is not None and ev[3] != envs.get(tuple(trig)):
+            ck.oracle_fail('build_env_is_run_env', inp, {'build_start': ev, 'triggering_run': trig, 'env_of_run': envs.get(tuple(trig))},
+                           signature={'clause': 'build_env_is_run_env'})
+            failed_any = True
     # first: before a benchmark process of run r starts each of its builds has ended successfully
     ok_ended = set()
     ended_bad = {}
@@ -456,6 +515,11 @@ def check_batch(ck, scenarios, base_idx=0, search=True):
         parallel = bs.threads > 0
         ck.count('sched:' + ('parallel/' if parallel else '') + sc['sched'])
         ck.count('experiments:%d' % len(experiments_of(sc)))
+        for lvl, on in (('machine', sc.get('machine_env') is not None), ('runs', sc.get('runs_env') is not None),
+                        ('experiment', sc.get('exp_env') is not None), ('exec-details', bool(sc.get('exec_detail_env'))),
+                        ('benchmark', any(s_.get('bench_env') for s_ in sc['suites']))):
+            if on:
+                ck.count('env-level:' + lvl)
         if sc.get('conf_subdir'):
             ck.count('config-file-outside-cwd')
         if sc.get('prior'):
@@ -631,6 +695,26 @@ def pattern_scenarios():
             sc['flags'] = flags
             sc['results'] = [{'script': b[0], 'dir': b[1], 'res': 'ok'} for b in builds]
             out.append(sc)
+    # `env` on every level: the build gets the effective env of the run that triggers it
+    A_, B_ = ['make a'], ['make b']
+    for k in range(8):
+        es = [ex('E1', 'd1', A_, {'E': 'e1', 'T': '~/t'} if k in (0, 2, 5) else None)]
+        s1 = su('S1', None, B_, {'S': 's1'} if k in (0, 1, 2, 6) else None, benches=('b1', 'b2'), inv=2 if k == 3 else 1)
+        if k in (0, 1, 3, 7):
+            s1['bench_env'] = {'b1': {'B': 'b1', 'P': '~/lib'}, 'b2': {'B': 'b2'}} if k != 3 else {'b2': {'B': 'b2', 'P': '~/lib'}}
+        for sched in ('batch', 'random'):
+            sc = {'executors': json.loads(json.dumps(es)), 'suites': [json.loads(json.dumps(s1))], 'pairs': [['E1', ['S1']]],
+                  'flags': [], 'cpu': 1, 'choices': list(range(k, 64 + k)), 'picks': None, 'pick_seed': k, 'sched': sched,
+                  'results': [{'script': 'make a', 'dir': 'd1', 'res': 'ok'}, {'script': 'make b', 'dir': 'd1', 'res': 'ok'}]}
+            if k in (2, 4, 7):
+                sc['machine_env'] = {'L': 'machine'}
+            if k in (4, 5):
+                sc['runs_env'] = {'L': 'runs', 'H': '~'}
+            if k in (5, 6):
+                sc['exp_env'] = {'L': 'exp'}
+            if k in (6, 7):
+                sc['exec_detail_env'] = {'E1': {'L': 'det', 'H': '~/d'}}
+            out.append(sc)
     # the same scenarios with the runs spread over two experiments of one session: builds shared
     # across experiments must still run once per session
     multi = []
@@ -696,13 +780,14 @@ def run(ck):
     check_batch(ck, corpus, base_idx=0)
     pats = pattern_scenarios()
     if quick:
-        pats = [p for i, p in enumerate(pats) if i % 2 == ck.seed % 2 or p['flags'] or p.get('prior') or p.get('more_experiments')]
+        pats = [p for i, p in enumerate(pats) if i % 2 == ck.seed % 2 or p['flags'] or p.get('prior') or p.get('more_experiments')
+                or any(s_.get('bench_env') for s_ in p['suites']) or p.get('exp_env') or p.get('runs_env')]
     idx = 1000
     for i in range(0, len(pats), 60):
         check_batch(ck, pats[i:i + 60], base_idx=idx + i)
     idx += len(pats)
-    n_seq = 300 if quick else 3000
-    n_par = 300 if quick else 5000
+    n_seq = 220 if quick else 3000
+    n_par = 200 if quick else 5000
     rnd = [gen_scenario(ck.rng) for _ in range(n_seq)]
     for i in range(0, len(rnd), 100):
         check_batch(ck, rnd[i:i + 100], base_idx=idx + i)
